@@ -10,10 +10,14 @@
 //     datetime range) the "text forms of equal values decode to equal values" clause is skipped for that value and counted under the label
 //     text-undecodable; "the rendering parses" is C12's claim and "the JSON decodes" is C13's, where those inputs are reported.
 //
-// Sensitivity (quick tier, scratch copies of /repo, see HARNESS_GUIDE):
-//   see the block at the end of this comment, filled in after the mutants were run.
-//
-// SENSITIVITY-RESULTS
+// Sensitivity (quick tier, scratch copy of /repo + harness, one mutant at a time; all caught, replay of a mutant's case fails under the
+// mutant and passes on the real tree):
+//   - NewSet: colliding slot overwritten instead of hash++             -> set/len, set/contains, eq/equal, eval/containsAll, codec/json
+//   - Set.Contains gives up after one probe                            -> set/contains, eq/equal, eq/reflexive
+//   - Set.Equal compares only length and hashVal                       -> set/unequal, eq/equal, set/contains
+//   - NewSet: duplicate check removed                                  -> set/len, set/equal-perm, eq/symmetric, eq/congruent
+//   - NewRecord does not clone its input map                           -> immut/changed
+//   - Record.Map() returns the internal map                            -> immut/changed
 package c11
 
 import (
@@ -998,8 +1002,8 @@ func enumSeqs(t *testing.T, name string, u []ir.Value, maxLen int) {
 }
 
 func TestSeqColliding(t *testing.T) { enumSeqs(t, "seq-colliding", U, ev.Pick(4, 5)) }
-func TestSeqNested(t *testing.T)    { enumSeqs(t, "seq-nested", UNested, ev.Pick(3, 5)) }
-func TestSeqWrap(t *testing.T)      { enumSeqs(t, "seq-wrap", UWrap, ev.Pick(3, 5)) }
+func TestSeqNested(t *testing.T)    { enumSeqs(t, "seq-nested", UNested, ev.Pick(3, 4)) }
+func TestSeqWrap(t *testing.T)      { enumSeqs(t, "seq-wrap", UWrap, ev.Pick(3, 4)) }
 
 // eqUniverse: values and alternative constructions of the same value (member order, duplicates, field order).
 var eqUniverse = func() []ir.Value {
@@ -1179,7 +1183,7 @@ func seqInts(n int) []int {
 }
 
 func TestRandomSequences(t *testing.T) {
-	ev.SetChecks(ev.Scale(6000, 400000))
+	ev.SetChecks(ev.Scale(6000, 250000))
 	rapid.Check(t, func(rt *rapid.T) {
 		c := genSeqCase(rt)
 		nt, labels := seqLabels(c.Seq)
@@ -1190,7 +1194,7 @@ func TestRandomSequences(t *testing.T) {
 }
 
 func TestRandomCodec(t *testing.T) {
-	ev.SetChecks(ev.Scale(6000, 400000))
+	ev.SetChecks(ev.Scale(6000, 250000))
 	rapid.Check(t, func(rt *rapid.T) {
 		o := gen.DefaultValOpts
 		o.MappedIP = true
@@ -1244,7 +1248,7 @@ func shuffleValue(rt *rapid.T, v ir.Value) ir.Value {
 }
 
 func TestImmutability(t *testing.T) {
-	ev.SetChecks(ev.Scale(4000, 300000))
+	ev.SetChecks(ev.Scale(4000, 200000))
 	rapid.Check(t, func(rt *rapid.T) {
 		n := rapid.IntRange(2, 24).Draw(rt, "nops")
 		c := &Case{Kind: "hist"}
